@@ -50,6 +50,9 @@ type HarnessCfg struct {
 	Cross       string
 	Params      map[string]int64 // harness parameters readable through vxParam("name")
 	Stubs       map[string]Intrinsic
+	LoopCheck   bool     // C12: assert SCEV facts of the real loop analysis during execution
+	MaxDepth    int      // call-depth bound (cut like an unwinding bound)
+	Concrete    []uint64 // replay mode: vx primitives return these values instead of symbols
 	Portfolio   []string // further solvers tried (one-shot) when the first answers unknown
 	OneShot     bool // assertion queries go to a fresh non-incremental solver process
 	FPUF        bool // float arithmetic as uninterpreted functions (sound for proving equalities such as symmetry)
@@ -75,6 +78,7 @@ type HarnessResult struct {
 	Wall         float64
 	Funcs        map[string]int // encoded functions -> instructions executed
 	CrossDiff    []string
+	Reports      map[string][]int64
 	mu           sync.Mutex
 }
 
@@ -359,6 +363,20 @@ func (p *Path) vxAssert(label string, c *Term) {
 		res.mu.Lock()
 		res.AssertsProved[label]++
 		res.mu.Unlock()
+		return
+	}
+	if p.ex.cfg.Concrete != nil {
+		// concrete replay mode: the fact is simply true or false on this run; record and keep going
+		bad := c.C && !c.B
+		if !c.C {
+			r, _ := p.query(false, p.not(c))
+			bad = r == "sat"
+		}
+		if bad {
+			res.mu.Lock()
+			res.Violations = append(res.Violations, Violation{Harness: p.ex.cfg.Name, Label: label, Vec: p.ex.cfg.Concrete, Trail: append([]int(nil), p.trail...)})
+			res.mu.Unlock()
+		}
 		return
 	}
 	neg := p.not(c)
